@@ -386,6 +386,8 @@ class FnAnalysis(Analysis):
                 if isinstance(ch, ast.expr):
                     if isinstance(node, (ast.Assign, ast.AugAssign, ast.AnnAssign)) and ch in getattr(node, "targets", [getattr(node, "target", None)]):
                         self.target_raises(ch, st)
+                        if isinstance(node, ast.Assign) and isinstance(ch, (ast.Tuple, ast.List)):
+                            self.unpack_raises(ch, node.value, st)
                         continue
                     self.val(ch, st)
         else:
@@ -393,6 +395,30 @@ class FnAnalysis(Analysis):
         out = [(x, st) for x in self.pending]
         self.pending = []
         return out
+
+    def unpack_raises(self, target, value_node, st):
+        """a, b, c = <peer bytes, or an element-wise image of them>: ValueError unless exactly len(targets) elements"""
+        if value_node is None or any(isinstance(t, ast.Starred) for t in target.elts):
+            return
+        src, n_t = value_node, len(target.elts)
+        while True:
+            if isinstance(src, ast.Call) and isinstance(src.func, ast.Name) and src.func.id in ("map", "list", "tuple", "bytes", "bytearray", "reversed", "iter", "memoryview") \
+                    and src.args and not src.keywords and len(src.args) == (2 if src.func.id == "map" else 1):
+                src = src.args[-1]
+            elif isinstance(src, (ast.ListComp, ast.GeneratorExp)) and len(src.generators) == 1 and not src.generators[0].ifs:
+                src = src.generators[0].iter
+            else:
+                break
+        saved_p, self.pending = self.pending, []
+        try:
+            srcv = self.val(src, st)
+        finally:
+            self.pending = saved_p
+        if srcv.taint and srcv.kind == "bytes":
+            if srcv.exact == n_t:
+                self.raiser(value_node, "ValueError", "", proved=f"exactly {n_t} elements to unpack")
+            else:
+                self.raiser(value_node, "ValueError", f"unpacking into {n_t} names from peer data whose length is only known to be >= {srcv.lb}")
 
     def target_raises(self, t, st):
         if isinstance(t, ast.Subscript):
